@@ -4,7 +4,7 @@ PROP = Prop(
     models=[("pkg/kfake/persist.go", ["writeEntry", "readEntries", "decodeIndexEntry", "decodeBatchRaw", "Cluster.loadSegmentBatches",
                                       "Cluster.loadPartition", "snapshotMatchesSegments", "Cluster.loadPartitionFromSnapshot",
                                       "Cluster.loadPartitionFullReplay", "Cluster.persistBatchToSegment", "writeJSONFile",
-                                      "replayGroupsLog", "Cluster.loadFromDisk", "Cluster.loadGroupsLog", "Cluster.loadPIDsLog"])],
+                                      "replayGroupsLog", "Cluster.loadFromDisk", "Cluster.loadGroupsLog", "Cluster.loadPIDsLog", "truncateLogFile"])],
     group_by_reset=True,
     run_timeout={"quick": 900, "thorough": 3000},
     rule="case = one restart of a real kfake (DataDir+SyncWrites) on a crash image: (workload seed, prefix k of the recorded fs operation "
@@ -29,24 +29,29 @@ PROP = Prop(
                  "single broker, SyncWrites on, requests issued one at a time (the acknowledged set at a crash point is then well defined)"],
     partial="RecordBatch framing of segment files (length at byte 8 + CRC) and the 15-byte index entries are modelled and checked "
             "differentially but their prefix-safety is not proved; producer/transaction listings (DescribeProducers, ListTransactions) are "
-            "compared only across clean Close + restart; JSON and OS semantics beyond the crash model not modelled. Two full statements are "
-            "false of the code (negations proved): segment/index pairing after a torn append, state-log replay after an untruncated torn tail; "
-            "and the implicit abort of transactions open at a crash is not stable across recoveries (negation proved on fullReplayAborted).",
+            "compared only across clean Close + restart; JSON and OS semantics beyond the crash model not modelled. One full statement is false of the code (negation proved on "
+            "fullReplayAborted): the implicit abort of transactions open at a crash is not stable across recoveries (known finding "
+            "crash-aborted-txn-has-no-marker); crash_abort_durable_partial is the part that holds. The start-up truncations (segment, index, "
+            "groups.log, pids.log) predicted by the model are compared with the recorded ones on every second-generation workload.",
 )
 MANIFEST = {
     "text": "Lean theorems, for all entry lists / crash points / tail losses: readEntries(frames es ++ rest) = es ++ readEntries(rest); a torn "
             "tail (any proper prefix of a frame) is invisible without any CRC assumption; after any prefix of the write/sync append protocol "
             "and any loss of unsynced bytes replay returns a prefix of the issued entries containing every synced (acknowledgeable) one and no "
             "partial entry; clean close recovers all; temp+sync+rename leaves the old or exactly the new file; contiguity of recovered "
-            "prefixes; the segment/index k<->k pairing holds on histories without a segment-only torn append (_partial) and its full statement "
-            "is refuted by a decided witness, likewise replay after an untruncated torn state-log tail. The model (crash image + recovery) is "
+            "prefixes; over ANY multi-generation history (crash inside an append keeping none/both/only the segment record/only the index "
+            "record, restart, more appends, ...) every acknowledged batch replays with its own index metadata and every replayed batch has "
+            "an index entry; over ANY number of crash/restart generations of a state log (start-up cuts the torn tail) replay returns per "
+            "generation a prefix containing every synced entry, in order; segment replay at byte level drops a torn batch and every batch "
+            "without a complete index entry. One statement is refuted by a decided witness: the implicit abort of transactions open at a "
+            "crash is not stable across recoveries (known finding). The model (crash image + recovery) is "
             "tied to the real kfake by restarting it on every crash prefix x sampled tail losses, multi-generation, comparing the protocol-"
             "visible state exactly and evaluating the property's Spec (acked => present, contiguous, no foreign/partial batch, read_committed "
             "consistent with transaction outcomes, committed offsets, topics, clean close identical) on the real outputs.",
     "note": "Trusted: Lean kernel; hand-written model validated differentially, not verified; the harness' crash-simulating file system and "
-            "its JSON decoding; CRC-32C, JSON, OS semantics beyond the stated crash model not modelled. Findings on the unchanged tree: "
-            "index-segment-skew-after-torn-append, state-log-torn-tail-kept, crash-aborted-txn-has-no-marker (see known_findings.txt).",
+            "its JSON decoding; CRC-32C, JSON, OS semantics beyond the stated crash model not modelled. Found by this check and fixed in /repo: "
+            "index-segment-skew-after-torn-append (fc48882), state-log-torn-tail-kept (a250036); both are regression cases in corpus/C33 and "
+            "plain violations again if they reappear. Still open: crash-aborted-txn-has-no-marker (see known_findings.txt).",
     "technique": "Lean 4 proof (induction over entry lists and operation prefixes, decided counterexample histories) with differential "
                  "crash-point enumeration against the real kfake on an injected crash-simulating file system",
 }
-PENDING = "not claimed at the moment (the technique applies): the check exists (17 theorems, crash-image differential tie) and found three kfake defects, two repaired in /repo (fc48882, a250036); the Lean model is being re-transcribed to the repaired recovery code and the property is claimed again when the check passes on the repaired tree"
